@@ -998,7 +998,7 @@ func closeEverywhere() []script {
 		script{Name: "three-dials-one-parseargs", Writes: many, ReadSizes: []int{100}, Reads: -1, Resp: []int{0, 5}, Down: 60,
 			FailAt: -1, Close: "drained", ServerLag: 500, Group: 3},
 	)
-	tiny := make([]int, 120)
+	tiny := make([]int, 400)
 	for i := range tiny {
 		tiny[i] = 10
 	}
